@@ -22,6 +22,7 @@ pub struct Graph;
 
 fn mk_func(name: String, args: Vec<Arg>, ret: Option<Ty>, addr: u64) -> Func {
     Func {
+        sty: 0,
         vis: true,
         name,
         doc: vec![],
